@@ -561,6 +561,7 @@ type vpHealth struct {
 	deadlineOK bool
 	maxCalls int
 	forceHealthy bool // from now on every verdict is "healthy" (no explorer choice)
+	forceUnhealthy bool // from now on every verdict is "unhealthy"
 	maySlow  bool // the checker may ignore its context and answer after 150 ms (explorer's choice per call)
 	slow     []bool
 }
@@ -571,7 +572,9 @@ func (h *vpHealth) Check(ctx context.Context) bool {
 	ok := has && dl.Sub(time.Now()) <= 100*time.Millisecond
 	vpAssert("C12.ctx-100ms", ok)
 	v := true
-	if !h.forceHealthy {
+	if h.forceUnhealthy {
+		v = false
+	} else if !h.forceHealthy {
 		v = vpChoose("healthy", 2) == 1
 	}
 	if h.yieldInCheck {
